@@ -1,12 +1,12 @@
 """Contracts for file_builder/file_builder.py (class FileBuilder)."""
 import z3
 from pyvc.engine import Contract, ExcSpec, LoopSpec
-from pyvc.sorts import (str_lit, is_alloc, STR, BOOL, INT, PYV, OBJ, SET, MAP, LIST, OPT, StrS, ObjS, PyV, PyVs, KVs,
+from pyvc.sorts import (anc, str_lit, is_alloc, STR, BOOL, INT, PYV, OBJ, SET, MAP, LIST, OPT, StrS, ObjS, PyV, PyVs, KVs,
                         cls_isinstance, cls_of, CLS, abspath, dirname, K_FILE, K_DIR, K_ABSENT, EXC,
                         exc_issub)
 from pyvc.values import CallbackV, Sym
 from spec import json_spec as J
-from contracts.shapes import FIELDS as SH, Effect, log_prefix, log_append, log_len
+from contracts.shapes import FIELDS as SH, Effect, log_prefix, log_append, log_len, GHOSTS
 
 M = 'file_builder.file_builder.FileBuilder.'
 And, Or, Not, Implies, If, ForAll = z3.And, z3.Or, z3.Not, z3.Implies, z3.If, z3.ForAll
@@ -343,6 +343,20 @@ OPS = ['exists', 'get_size', 'is_dir', 'is_file', 'list_dir', 'read', 'walk']
 EXEC_MODS = ['BuildDirs._removed_dirs', 'BuildDirs._exists_dirs', 'BuildDirs._maybe_removed_dirs',
              'BuildDirs._removed_files', 'SimpleOperationExecutor._hash_cache']
 
+def xq_logged(c):
+    """ghost log of the query just re-executed: what it returned, or the class name of the OSError
+    it raised (read by the exit obligation of _is_simple_operation_cached)"""
+    from pyvc.lib import exc_name
+    XO = GHOSTS['xq_exc']
+    out = [('query-logged', c.gnew('xq_n') == c.gold('xq_n') + 1)]
+    if c.exc is None:
+        out.append(('query-result-logged', And(c.gnew('xq_val') == c.res,
+                                                 c.gnew('xq_exc') == XO.none)))
+    else:
+        out.append(('query-exception-logged', c.gnew('xq_exc') == XO.some(exc_name(c.exc.cls))))
+    return out
+
+
 # the executor's dispatch: frame + result type only here; the per-operation semantics are the
 # contracts in contracts/executor.py (C04/C05/C13)
 CONTRACTS.append(Contract(
@@ -351,18 +365,18 @@ CONTRACTS.append(Contract(
             'created_files': OPT(OBJ('CreatedFiles'))},
     returns=PYV,
     ensures=lambda c: no_effect(c) + [('result-is-json-like', J.wf(c.res)),
-                                      ('result-comparable', J.eqdom(c.res))],
-    raises=[ExcSpec('OSError', ensures=no_effect),
+                                      ('result-comparable', J.eqdom(c.res))] + xq_logged(c),
+    raises=[ExcSpec('OSError', ensures=lambda c: no_effect(c) + xq_logged(c)),
             ExcSpec('ValueError', when=lambda c: Not(Or([c.name == str_lit(n) for n in OPS])),
                     ensures=no_effect)],
-    modifies=lambda c: EXEC_MODS,
+    modifies=lambda c: EXEC_MODS + ['g:xq_n', 'g:xq_val', 'g:xq_exc'],
     notes='dispatch by name to the executor methods; queries never change the file system'))
 
 
 
 
 CONTRACTS.append(Contract(
-    M + '_exec_simple_operation', props=['C11', 'C04', 'C17'],
+    M + '_exec_simple_operation', props=['C11', 'C04', 'C17', 'C05'],
     params={'self': FB, 'operation': OBJ('SimpleOperation')}, returns=PYV, ret_fresh=True,
     requires=lambda c: wf_builder(c) + [
         ('fresh-record', Not(c.old('Operation.is_finished', c.operation)))],
@@ -377,7 +391,7 @@ CONTRACTS.append(Contract(
     modifies=lambda c: EXEC_MODS + ['Operation.return_value', 'Operation.is_finished',
                                     'SimpleOperation.exception_type_str', SUBOPS],
 ))
-CONTRACTS[-1].fresh_props = ['C11']
+CONTRACTS[-1].fresh_props = ['C11', 'C05']
 
 # _build_file / _subbuild as seen by their callers (bodies verified separately)
 # (_build_file's contract is defined with its verification further below)
@@ -832,11 +846,21 @@ IS_BF_CACHED = Contract(
 CONTRACTS.append(IS_BF_CACHED)
 
 DIRS_TO_MAKE = Contract(
-    M + '_dirs_to_make', props=['C10', 'C04'], trusted=True,
-    params={'self': FB, 'dir_': STR, 'created_files': OPT(CFO)}, returns=LIST(STR),
-    ensures=lambda c: no_effect(c),
-    raises=[ExcSpec('OSError', ensures=no_effect)],
-    modifies=lambda c: EXEC_MODS)
+    M + '_dirs_to_make', props=['C10', 'C04', 'C03'],
+    params={'self': FB, 'dir_': STR, 'created_files': OPT(CFO)}, returns=LIST(STR), ret_fresh=True,
+    ensures=lambda c: no_effect(c) + [
+        ('only-ancestors-of-the-directory', ForAll([xs_], Implies(
+            in_list(c.res, xs_), anc(xs_, c.dir_))), ['C10', 'C03'])],
+    raises=[ExcSpec('NotADirectoryError', ensures=no_effect),
+            ExcSpec('FileNotFoundError', ensures=no_effect)],
+    modifies=lambda c: EXEC_MODS,
+    local_types={'parents': LIST(STR), 'is_dir': BOOL, 'is_file': BOOL},
+    loops={0: LoopSpec(modifies=lambda c: EXEC_MODS, inv=lambda c: no_effect_loop(c) + [
+        ('cursor-is-an-ancestor', anc(c.v('parent'), c.dir_)),
+        ('collected-are-ancestors', ForAll([xs_], Implies(
+            in_list(c.v('parents'), xs_), anc(xs_, c.dir_))))])},
+    lemmas=['PATHS', 'ANC'],
+)
 CONTRACTS.append(DIRS_TO_MAKE)
 
 
@@ -886,7 +910,7 @@ IS_SUBOP = Contract(
 CONTRACTS.append(IS_SUBOP)
 
 IS_SIMPLE = Contract(
-    M + '_is_simple_operation_cached', props=['C06', 'C01', 'C05'],
+    M + '_is_simple_operation_cached', props=['C06', 'C01', 'C05', 'C13', 'C04'],
     params={'self': FB, 'operation': OBJ('SimpleOperation'), 'created_files': CFO}, returns=BOOL,
     requires=lambda c: replay_common_req(c) + [
         ('record-wf', RWF(c.operation))],
@@ -894,6 +918,27 @@ IS_SIMPLE = Contract(
     modifies=lambda c: EXEC_MODS,
     lemmas=['lookup_sanitized', 'sanitized_eqdom'],
 )
+def is_simple_exit(eng, st, ctrl, v):
+    """C01/C13: a recorded query is accepted only if it was re-executed in this call AND what the
+    re-execution gave is JSON-equal to the recorded value with the same exception class (or none).
+    Stated over the ghost log written by executor.exec's contract, not over local variables."""
+    if ctrl != 'ret':
+        return []
+    res = v.t if isinstance(v, Sym) else z3.BoolVal(bool(v))
+    op = eng.cur_args['operation'].t
+    rec_val = eng.hread(st, 'Operation.return_value', op)
+    rec_exc = eng.hread(st, 'SimpleOperation.exception_type_str', op)
+    n0 = eng.gread(eng.entry_state, 'xq_n')
+    n1, cur_val, cur_exc = eng.gread(st, 'xq_n'), eng.gread(st, 'xq_val'), eng.gread(st, 'xq_exc')
+    XO = GHOSTS['xq_exc']
+    tags = ['C01', 'C13', 'C05', 'C04']
+    return [('accepted-only-after-re-execution', Implies(res, n1 > n0), tags),
+            ('accepted-only-if-same-value-and-same-exception-class',
+             Implies(res, And(cur_exc == rec_exc,
+                              Implies(XO.is_none(cur_exc), J.jeq(cur_val, rec_val)))), tags)]
+
+
+IS_SIMPLE.exit_obligations = is_simple_exit
 CONTRACTS.append(IS_SIMPLE)
 
 
